@@ -98,6 +98,12 @@ def asSeqOp (j : Json) : R Ktensor.SeqOp := do
   | "sub" => do .ok (.sub (← nat "a") (← nat "b"))
   | "tolist" => do .ok (.tolist (← nat "k") (← optInt j "mode"))
   | "construct" => do .ok (.construct (← nat "l"))
+  | "smul" => do .ok (.smul (← nat "k") (← field j "c" >>= asInt))
+  | "neg" => do .ok (.neg (← nat "k"))
+  | "pos" => do .ok (.pos (← nat "k"))
+  | "permute" => do .ok (.permute (← nat "k") (← field j "order" >>= asNats))
+  | "symmetrize" => do .ok (.symmetrize (← nat "k"))
+  | "reconstruct" => do .ok (.reconstruct (← nat "k"))
   | _ => .error s!"bad seq op {name}"
 
 def ops08 : List (String × Op) := [
